@@ -321,6 +321,17 @@ fn handle_inner(line: &str) -> String {
                 Err(e) => format!("err {}", err_kind(&e)),
             }
         }
+        "loadtext" => {
+            // Rule::from_str on arbitrary text (also text that is not well-formed YAML)
+            let s = match xs.get(1).and_then(sx::atom).and_then(sx::dec) {
+                Some(s) => s,
+                None => return "bad-request".into(),
+            };
+            match Rule::from_str(&s) {
+                Ok(_) => "load=ok".into(),
+                Err(e) => format!("load=err {}", load_err_class(&e)),
+            }
+        }
         "cond" => {
             // tokenise + Pratt parse: reach the (crate-private) parser through a one-identifier rule
             // is not possible for arbitrary identifiers, so use parse_identifier on a key instead
